@@ -1,6 +1,8 @@
 """C11 Decoding result does not depend on the kind of input object; the seek-back wrapper behaves like a
 seekable stream (DESIGN 4/C11)."""
+import base64
 import gzip
+import zlib
 import io
 import os
 import shutil
@@ -68,29 +70,74 @@ class BlockingRaw(io.RawIOBase):
 def spans_cache_drop(data):
     """Structural feature behind the pinned wrapper finding: does a definite-length constructed element start
     before, and end after, a point where the wrapper drops its cache (mark set more than BUF octets into the
-    cache)?  Computed on the TLV tree by simulating the mark-and-drop rule."""
-    try:
-        nodes = R.tlv(data)
-    except R.RefError:
-        return False
-    base = [0]
-    broken = [False]
+    cache)?  Computed by walking the TLVs the way a decoder meets them (element starts are where the mark is
+    set) and simulating the mark-and-drop rule.  The walk is lenient: damaged input is followed as far as headers
+    can be read, children of a definite-length element are followed until its declared end is reached or passed."""
+    n = len(data)
+    state = {'base': 0, 'broken': False, 'budget': 200000}
 
-    def visit(n):
-        if n.start - base[0] > BUF:
-            base[0] = n.start
-            return True
-        return False
+    def header(pos):
+        # -> (constructed, length or None for indefinite, content offset) or None
+        if pos >= n:
+            return None
+        first = data[pos]
+        pos += 1
+        if first & 0x1f == 0x1f:
+            while True:
+                if pos >= n:
+                    return None
+                o = data[pos]
+                pos += 1
+                if not o & 0x80:
+                    break
+        if pos >= n:
+            return None
+        lo = data[pos]
+        pos += 1
+        if lo < 0x80:
+            return bool(first & 0x20), lo, pos
+        if lo == 0x80:
+            return bool(first & 0x20), None, pos
+        k = lo & 0x7f
+        if k == 0x7f or pos + k > n:
+            return None
+        return bool(first & 0x20), int.from_bytes(data[pos:pos + k], 'big'), pos + k
 
-    def walk(n, open_definite):
-        dropped = visit(n)
-        if dropped and open_definite:
-            broken[0] = True
-        for c in n.children or ():
-            walk(c, open_definite or (n.cons and not n.indef))
-    for top in nodes:
-        walk(top, False)
-    return broken[0]
+    def walk(pos, open_definite, depth):
+        """-> position after the element at pos, or None when the walk cannot go on."""
+        state['budget'] -= 1
+        if state['budget'] < 0 or depth > 200:
+            return None
+        if pos - state['base'] > BUF:
+            state['base'] = pos
+            if open_definite:
+                state['broken'] = True
+        h = header(pos)
+        if h is None:
+            return None
+        cons, length, off = h
+        if not cons:
+            return off + (length or 0)
+        if length is None:
+            p = off
+            while True:
+                if data[p:p + 2] == b'\x00\x00':
+                    return p + 2
+                p = walk(p, open_definite, depth + 1)
+                if p is None or p >= n:
+                    return None
+        end = off + length
+        p = off
+        while p < end:
+            p = walk(p, True, depth + 1)
+            if p is None:
+                return None
+        return p
+
+    pos = 0
+    while pos is not None and pos < n:
+        pos = walk(pos, False, 0)
+    return state['broken']
 
 
 class Kinds(object):
@@ -247,7 +294,7 @@ def arm_kinds(res, rng, tier, kinds_factory):
         kinds_factory.cleanup_files()
         ref = outs['bytesio']
         case = ('c11-kinds', T if use_spec else None, codec, data.hex() if len(data) < 3000 else None, mode,
-                (T, v, codec, origin) if len(data) >= 3000 else None)
+                ('z', base64.b64encode(zlib.compress(data, 9)).decode('ascii')) if len(data) >= 3000 else None)
         res.case(U.case_hash(codec, data, mode, use_spec), len(data) > BUF)
         res.see('comparisons:%s:%s' % (mode, 'big' if len(data) > BUF else 'small'))
         res.see('outcome:' + ref[0])
@@ -457,6 +504,8 @@ def replay(case):
     try:
         if hexdata is not None:
             data = bytes.fromhex(hexdata)
+        elif regen[0] == 'z':
+            data = zlib.decompress(base64.b64decode(regen[1]))
         else:
             T, v, codec, origin = regen
             data = R.der(T, v)
